@@ -168,6 +168,40 @@ int count_threads() {
     return n;
 }
 
+// Number of live pool worker threads of this process (thread name "_osmium_worker", set by
+// Pool::worker_thread). Counting all tasks is not robust: a joined thread can linger in /proc
+// for a moment and the harness has threads of its own.
+int count_workers() {
+    int n = 0;
+    if (DIR* d = opendir("/proc/self/task")) {
+        while (const dirent* e = readdir(d)) {
+            if (e->d_name[0] == '.') {
+                continue;
+            }
+            const std::string path = std::string{"/proc/self/task/"} + e->d_name + "/comm";
+            if (FILE* f = std::fopen(path.c_str(), "r")) {
+                char buf[64] = {0};
+                if (std::fgets(buf, sizeof(buf), f) && std::strncmp(buf, "_osmium_worker", 14) == 0) {
+                    ++n;
+                }
+                std::fclose(f);
+            }
+        }
+        closedir(d);
+    }
+    return n;
+}
+
+// poll (up to `ms` milliseconds) until the number of worker threads is `want`
+int wait_for_workers(int want, int ms) {
+    int n = count_workers();
+    for (int i = 0; i < ms && n != want; ++i) {
+        std::this_thread::sleep_for(std::chrono::milliseconds{1});
+        n = count_workers();
+    }
+    return n;
+}
+
 std::map<std::string, std::string> parse_kv(const std::vector<std::string>& w) {
     std::map<std::string, std::string> m;
     for (std::size_t i = 1; i < w.size(); ++i) {
@@ -437,7 +471,7 @@ void run_pool(const std::string& line, const std::map<std::string, std::string>&
     }
     std::vector<std::future<long long>> futures(static_cast<std::size_t>(total) + 1);
     std::vector<std::string> fut_result(static_cast<std::size_t>(total) + 1);
-    const int threads_before = count_threads();
+    const int threads_before = count_workers();
     int threads_during = 0;
     bool all_ready_after_dtor = true;
 
@@ -458,7 +492,7 @@ void run_pool(const std::string& line, const std::map<std::string, std::string>&
 
     {
         auto pool = std::make_unique<osmium::thread::Pool>(N, max);
-        threads_during = count_threads();
+        threads_during = wait_for_workers(N, 2000);
         std::vector<std::thread> submitters;
         for (int s = 0; s < S; ++s) {
             submitters.emplace_back([&, s] {
@@ -498,7 +532,7 @@ void run_pool(const std::string& line, const std::map<std::string, std::string>&
         t_ctx.stop_mode = false;
         log_event("dtor-done", nullptr, 0, -1);
     }
-    const int threads_after = count_threads();
+    const int threads_after = wait_for_workers(0, 2000);
     if (mode != "get-first") {
         for (int id = 1; id <= total; ++id) {
             if (futures[static_cast<std::size_t>(id)].wait_for(std::chrono::seconds(0)) != std::future_status::ready) {
@@ -531,7 +565,7 @@ void run_pool(const std::string& line, const std::map<std::string, std::string>&
     }
     std::printf("MON future-delivers-outcome %s %s\n", fut_ok ? "ok" : "FAIL", d.c_str());
     std::printf("MON queued-tasks-done-when-destructor-returns %s -\n", all_ready_after_dtor ? "ok" : "FAIL");
-    const bool joined = threads_after == threads_before && threads_during == threads_before + N;
+    const bool joined = threads_before == 0 && threads_after == 0 && threads_during == N;
     std::printf("MON destructor-joined-all-workers %s before=%d,during=%d,after=%d,N=%d\n", joined ? "ok" : "FAIL", threads_before, threads_during, threads_after, N);
     std::printf("OBS total=%d\n", total);
     std::printf("END ok\n");
